@@ -15,7 +15,7 @@ RULE = ("encode: _encode_encrypted_request(counter, payload) for every payload l
         "tag over header+plaintext, counter, minimal padding); decode: reference-built encrypted responses for every length through "
         "_process_packet must yield exactly the payload, and through the connection's receive path (data_received in 1-4 segments, then read(); also responses searched to contain 83 70 inside ciphertext/tag, cut around that position) together with a following response; wire: both directions through LAN.send on an authenticated simulated V3 "
         "connection; tamper (the genuine response is accepted on the same protocol object before and between the altered copies): every single-bit flip of header, ciphertext and tag of a response (one length per residue) must give "
-        "ProtocolError from _process_packet (type-nibble flips judged at LAN.send level, where marker/size/magic-byte flips may also end in "
+        "ProtocolError from _process_packet (at LAN.send level half of the runs alter only the FIRST reply - an intact answer to a retransmission must not turn the alteration into a success; type-nibble flips judged at LAN.send level, where marker/size/magic-byte flips may also end in "
         "TimeoutError because no packet is ever framed). distinct = (kind, length, counter/bit); non-trivial = all")
 ASSUMPTIONS = ["mv/ref/v3.py is a correct reading of the V3 packet overview",
                "_encode_encrypted_request/_process_packet/_local_key are the names pinned by the repository's tests",
@@ -46,6 +46,14 @@ def generate(ctx, rng):
         for k in range(1 if quick else 4):
             yield ("rx", L, k), {"kind": "rx", "key": rng.randbytes(32), "payload": rng.randbytes(L), "counter": rng.randrange(65536),
                                  "rseed": rng.getrandbits(32), "inner_marker": False}
+    # payloads that look like something else: protocol words, markers, headers, all-equal bytes
+    special = [b"ERROR", b"error", b"Error", b"OK", b"ok", b"\x00", b"\xff", b"\x83\x70", b"\x5a\x5a", b"\x83\x70\x00\x00\x20\x0f", b"\x5a\x5a\x01\x11",
+               b"None", b"null", b"\r\n", b"ERROR\x00", b"\x00" * 16, b"\xff" * 16, b"\x10" * 16, b"\x0f" * 15, b" " * 5, bytes(range(32))]
+    special += [bytes([v]) * n for v in (0x00, 0xFF, 0x20, 0x0A) for n in (2, 14, 15, 30, 31)]
+    for j, pl in enumerate(special):
+        yield ("rx-special", j), {"kind": "rx", "key": rng.randbytes(32), "payload": pl, "counter": rng.randrange(65536), "rseed": rng.getrandbits(32),
+                                  "inner_marker": False}
+        yield ("dec-special", j), {"kind": "dec", "key": rng.randbytes(32), "payload": pl, "counter": rng.randrange(65536), "pad": rng.randbytes(v3.pad_len(len(pl)))}
     # ... and responses whose ciphertext or tag happens to contain the start marker bytes 83 70 (searched for)
     found = 0
     want = 40 if quick else 3000
@@ -96,6 +104,10 @@ def generate(ctx, rng):
             for part in range(8):
                 yield ("tamper-wire-all", res, L, key[:2], part), {"kind": "tamper-wire", "key": key, "frame_len": L,
                                                                   "bits": "part", "part": part, "bseed": 0}
+    # wire round trips under session keys with leading / trailing zero bytes, all-zero and all-ones keys (the device's nonce decides)
+    for j, pat in enumerate(["lead0", "lead00", "lead0000", "trail0", "zero", "ones", "lead0-trail0"] * (2 if quick else 40)):
+        yield ("wire-key-shape", j), {"kind": "wire", "frame": rng.randbytes(rng.randint(0, 60)), "responses": [rng.randbytes(rng.randint(0, 60))],
+                                      "key": rng.randbytes(32), "token": rng.randbytes(64), "session_key_shape": pat, "shape_seed": rng.getrandbits(32)}
     # wire round trips
     for j in range(120 if quick else 60000):
         L = j % 200 if j < 200 else rng.randint(0, 255)
@@ -338,9 +350,13 @@ def _tamper_wire(ctx, case):
         net = H.new_net()
         dev = SimDevice(net, version=3, token=token, key=key, device_id=5)
 
-        def on_exchange(conn, req, packets, meta, pos=pos, bit=bit):
+        nrep = {"n": 0}
+
+        def on_exchange(conn, req, packets, meta, pos=pos, bit=bit, nrep=nrep, only_first=bool(bi % 2)):
             p = bytearray(dev.wrap(conn, frame))
-            p[pos] ^= 1 << bit
+            nrep["n"] += 1
+            if nrep["n"] == 1 or not only_first:
+                p[pos] ^= 1 << bit          # every reply altered, or (odd bit numbers) only the first: a retransmission would be answered intact
             return [(0, bytes(p))]
 
         dev.on_exchange = on_exchange
@@ -378,6 +394,22 @@ def _wire(ctx, case):
     responses = [bytes(r) for r in case["responses"]]
     net = H.new_net()
     dev = SimDevice(net, version=3, token=token, key=key, device_id=99)
+    if case.get("session_key_shape"):
+        import random
+        rr = random.Random(case["shape_seed"])
+        sk = bytearray(rr.randbytes(32))
+        shape = case["session_key_shape"]
+        if shape.startswith("lead"):
+            k = {"lead0": 1, "lead00": 2, "lead0000": 4, "lead0-trail0": 1}[shape]
+            sk[:k] = bytes(k)
+        if shape.endswith("trail0"):
+            sk[-1] = 0
+        if shape == "zero":
+            sk = bytearray(32)
+        if shape == "ones":
+            sk = bytearray(b"\xff" * 32)
+        nonce = bytes(a ^ b for a, b in zip(sk, key))      # session key = nonce XOR key
+        dev.nonce_source = lambda: nonce
     seen = []
 
     def on_exchange(conn, req, packets, meta):
